@@ -66,7 +66,8 @@ def build_plan(tier, nruns=None, seed=0):
             plan.append(("cold", None, i % 3 != 0))
         for i in range(6):
             plan.append(("cold-order", pr.randrange(720), False))
-        directed = (("crosssuite", 28), ("sharedvals", 48), ("classchurn", 48), ("soak", 6))
+        directed = (("crosssuite", 28), ("sharedvals", 48), ("classchurn", 48), ("soak", 6),
+                    ("usersuites", 20))
     else:
         for rep in range(3):
             for t in tps:
@@ -79,7 +80,7 @@ def build_plan(tier, nruns=None, seed=0):
         for i in range(720):
             plan.append(("cold-order", i, False))
         directed = (("crosssuite", 400), ("sharedvals", 600), ("classchurn", 600),
-                    ("soak", 320))
+                    ("soak", 320), ("usersuites", 300))
     for name, cnt in directed:
         for i in range(cnt):
             plan.append((name, None, i % 4 == 3))
@@ -95,7 +96,7 @@ def build_plan(tier, nruns=None, seed=0):
     def heavy(e):
         if e[0] in ("samekind", "firstuse"):
             return G.BY_KIND[e[1]].cost >= 100
-        return e[0] in ("random-heavy", "cold", "cold-order", "soak", "crosssuite")
+        return e[0] in ("random-heavy", "cold", "cold-order", "soak", "crosssuite", "usersuites")
     if tier == "quick":
         first = [e for e in plan if heavy(e)]
         rest = [e for e in plan if not heavy(e)]
@@ -145,6 +146,8 @@ def make_spec(server, seed, index, tier, entry):
         spec = g.scn_crosssuite(faults=faults)
     elif scen == "sharedvals":
         spec = g.scn_sharedvals(faults=faults)
+    elif scen == "usersuites":
+        spec = g.scn_usersuites(faults=faults)
     elif scen == "soak":
         spec = g.scn_soak(n=380 if not thorough else rng.choice([380, 600, 1100]),
                           max_cost=12.0 if not thorough else rng.choice([12.0, 12.0, 120.0]),
